@@ -205,6 +205,34 @@ def same_float(a, b):
     return bits(a) == bits(b) or (a != a and b != b)
 
 
+TIE_REL = 1e-12
+
+
+def tie_equal(ctx, a, b, scale=0.0, rel=TIE_REL):
+    """Equality of an executable hand-written model and the implementation on one double.
+    The theorems are about the exact-arithmetic reading of the model, so the tie that matters is "same real-number function": bit-for-bit equality
+    is recorded when it holds (it does on the unchanged tree); a difference of a few ulps (a re-associated sum, x*x for x**2 - rewrites that do not
+    change the function over R) is accepted and counted separately, anything beyond 1e-12 of the magnitudes involved is a disagreement."""
+    a, b = float(a), float(b)
+    if same_float(a, b):
+        ctx.count('tie_bit_exact')
+        return True
+    if is_real_finite(a) and is_real_finite(b) and abs(a - b) <= rel * max(abs(a), abs(b), scale):
+        ctx.count('tie_within_rounding')
+        return True
+    return False
+
+
+def tie_equal_vec(ctx, xs, ys, rel=TIE_REL):
+    """vectors whose entries are sums that may cancel (heads): the scale is the largest magnitude in either vector"""
+    xs, ys = [float(x) for x in xs], [float(y) for y in ys]
+    if len(xs) != len(ys):
+        return False
+    fin = [abs(v) for v in xs + ys if is_real_finite(v)]
+    scale = max(fin) if fin else 0.0
+    return all(tie_equal(ctx, x, y, scale, rel) for x, y in zip(xs, ys))
+
+
 def rel_close(a, b, tol):
     if a == b:
         return True
